@@ -517,9 +517,25 @@ func c05Readers(p *load.Program, r *oblig.Report) {
 	for _, t := range traces {
 		all = append(all, strings.Join(an.Labels(t), ","))
 	}
+	// every path reads a prefix of one of the legal field sequences (timestamp only for magic != 0,
+	// key/value data only when their length is non-negative; error paths may stop early)
+	var legal []string
+	for _, ts := range []string{"8,", ""} {
+		for _, kd := range []string{"data,", ""} {
+			for _, vd := range []string{",data", ""} {
+				legal = append(legal, "8,4,4,setCRC(global:IEEETable),1,1,"+ts+"4,"+kd+"4"+vd)
+			}
+		}
+	}
 	prefixOK := true
 	for _, a := range all {
-		if !strings.HasPrefix(a, "8,4,4,setCRC(global:IEEETable),1,1,") {
+		okA := false
+		for _, l := range legal {
+			if strings.HasPrefix(l+",", a+",") {
+				okA = true
+			}
+		}
+		if !okA {
 			prefixOK = false
 		}
 	}
